@@ -139,22 +139,26 @@ Fixpoint zlat_along (lat : Z -> Z -> pres Z) (p : Parallel.path) (t : Z) : Prop 
 Lemma znodes_cons e r t : znodes (e :: r) t = fst e :: znodes r t.
 Proof. reflexivity. Qed.
 
-Lemma zwalk lat off : forall (p : Parallel.path) t d0 lp ls, zlat_along lat p t ->
-  py_for (py_pairwise (znodes p t)) (d0, lp, ls) (step_edge ZNum lat off) =
-  POk (match p with [] => d0 | _ :: _ => Some t end, lp ++ map (mapback off) p, fold_left (fun acc e => acc + snd e) p ls).
+Lemma zwalk lat off : forall (p : Parallel.path) t d0 lp, zlat_along lat p t ->
+  py_for (py_pairwise (znodes p t)) (d0, lp) (step_edge lat off) =
+  POk (match p with [] => d0 | _ :: _ => Some t end, lp ++ map (mapback off) p).
 Proof.
-  induction p as [|e r IH]; intros t d0 lp ls H.
+  induction p as [|e r IH]; intros t d0 lp H.
   - cbn. rewrite app_nil_r. reflexivity.
   - destruct H as (Hw & Hr). destruct r as [|e' r'].
-    + cbn [znodes map app fst py_pairwise py_for]. unfold step_edge at 1. cbn [fst snd]. rewrite Hw. cbn [pbind fold_left map snd fst nadd ZNum].
+    + cbn [znodes map app fst py_pairwise py_for]. unfold step_edge at 1. cbn [fst snd]. rewrite Hw. cbn [pbind map snd fst].
       unfold mapback, zback. reflexivity.
-    + specialize (IH t (Some (fst e')) (lp ++ [(zback off (fst e), snd e)]) (ls + snd e) Hr).
+    + specialize (IH t (Some (fst e')) (lp ++ [(zback off (fst e), snd e)]) Hr).
       change (znodes (e :: e' :: r') t) with (fst e :: fst e' :: znodes r' t).
       change (py_pairwise (fst e :: fst e' :: znodes r' t)) with ((fst e, fst e') :: py_pairwise (fst e' :: znodes r' t)).
       change (fst e' :: znodes r' t) with (znodes (e' :: r') t).
-      cbn [py_for]. unfold step_edge at 1. cbn [fst snd]. rewrite Hw. cbn [pbind nadd ZNum]. rewrite IH.
-      cbn [map fold_left]. rewrite <- app_assoc. unfold mapback at 2, zback. reflexivity.
+      cbn [py_for]. unfold step_edge at 1. cbn [fst snd]. rewrite Hw. cbn [pbind]. rewrite IH.
+      cbn [map]. rewrite <- app_assoc. unfold mapback at 2, zback. reflexivity.
 Qed.
+
+(* lat_sum of the code (the loop over the sorted lat_path) is Model/Parallel's lat_sum of that list *)
+Lemma sum_sorted_is_model (lp : list Parallel.edge) : sum_sorted ZNum lp = lat_sum lp.
+Proof. reflexivity. Qed.
 
 Lemma mem_is_model lp seen : py_set_mem (eq_pairs ZNum) lp seen = mem_lp lp seen.
 Proof.
@@ -174,14 +178,13 @@ Proof.
   - eexists _, _. cbn. rewrite app_nil_r. reflexivity.
   - destruct (H p t (or_introl eq_refl)) as (Hne & Hlat).
     assert (H' : forall p t, In (p, t) ps -> p <> [] /\ zlat_along lat p t) by (intros; apply H; right; assumption).
-    unfold zall_nodes. cbn [map py_for fst snd]. unfold step_path at 1. cbn [fst snd]. change (n0 ZNum) with 0.
-    rewrite (zwalk lat off p t d0 [] 0 Hlat). cbn [pbind fst snd app n0 ZNum].
+    unfold zall_nodes. cbn [map py_for fst snd]. unfold step_path at 1. cbn [fst snd].
+    rewrite (zwalk lat off p t d0 [] Hlat). cbn [pbind fst snd app].
     assert (Eb : py_bound (match p with [] => d0 | _ :: _ => Some t end) = POk t) by (destruct p; [congruence | reflexivity]).
-    rewrite Eb. cbn [pbind]. rewrite lat_path_is_model, mem_is_model. cbn [Parallel.dedup]. fold (zall_nodes ps).
-    change (fold_left (fun acc e => acc + snd e) p 0) with (lat_sum p).
+    rewrite Eb. cbn [pbind]. rewrite lat_path_is_model, mem_is_model, sum_sorted_is_model. cbn [Parallel.dedup]. fold (zall_nodes ps).
     destruct (mem_lp (lat_path off p) seen).
     + apply IH. exact H'.
-    + unfold py_set_add. destruct (IH (Some (zback off t)) (lat_path off p :: seen) (deps0 ++ [(lat_sum p, lat_path off p)]) H') as (d' & seen' & E).
+    + unfold py_set_add. destruct (IH (Some (zback off t)) (lat_path off p :: seen) (deps0 ++ [(lat_sum (lat_path off p), lat_path off p)]) H') as (d' & seen' & E).
       exists d', seen'. cbn [pbind]. rewrite <- app_assoc in E. cbn [app] in E. exact E.
 Qed.
 
